@@ -338,7 +338,7 @@ theorem openDB_lsm_inv (own : Bytes → Bool) (m : Nat) (ps : List (KGRange × C
   have hsortedM : mm.Sorted := by
     rw [openDB_ne own _ (by rw [hcs]; simp)] at hmm
     obtain ⟨m', hm', hs'⟩ := foldl_applyWal_sorted own (((ps.map (·.2))).flatMap (·.wal))
-      { seq := latestSeq (mergeLevels (ps.map (·.2))), mems := [[]], levels := mergeLevels (ps.map (·.2)) } [] rfl rfl
+      (startState tblEndSeq (mergeLevels (ps.map (·.2)))) [] rfl rfl
       Run.sorted_nil
     rw [hm'] at hmm; cases hmm; exact hs'
   have hcont : containers (openDB own (ps.map (·.2))) =
